@@ -38,6 +38,7 @@ THEOREMS = [
     "C27_mirror_every_call",
     "C27_observed_order_is_journal_prefix",
     "C27_observed_order_guard_needed",
+    "C27_table_source_shape",
 ]
 EXPLANATION = (
     "PARTIAL. Lean model WfModel/Journal.lean: (A) the workflow_journal table with the five SqliteJournalCrud statements, "
@@ -105,6 +106,8 @@ TRUSTED_EXTRA = [
     "pyshims/asyncpg, pyshims/sqlalchemy: name-only import shims (Pool, Connection, Record, UniqueViolationError, create_pool, "
     "connect, pool.PoolConnectionProxy; engine.URL, engine.Engine)",
     "harness/gen/journal.py: AST extraction of journal call sites, write order, SQL and key formats",
+    "harness/gen/journal_table.py: text/AST extraction of the workflow_journal DDL (both dialects), constructor defaults of TaskJournal / "
+    "InternalDBOSAdapter, _get_or_create_journal, execute-then-commit shape of the SqliteJournalCrud writers, identifier quoting",
     "SQLite: atomic commit, AUTOINCREMENT ids, ORDER BY",
 ]
 
